@@ -725,10 +725,10 @@ func statPlan(env vh.Env) []StatParams {
 		f = 6
 	}
 	return []StatParams{
-		{Engine: "pipeline", Rounds: env.N(3000, 6), Submitters: 4, PerRound: 8, BudgetMs: 8000 * f, Note: replayNote},
-		{Engine: "pipeline", Rounds: env.N(800, 6), Submitters: 4, PerRound: 8, ViaAPI: true, BudgetMs: 6000 * f, Note: replayNote},
-		{Engine: "direct", Rounds: env.N(400000, 6), Racers: 2, BudgetMs: 4000 * f, Note: replayNote},
-		{Engine: "direct", Rounds: env.N(300000, 6), Racers: 3, BudgetMs: 4000 * f, Note: replayNote},
+		{Engine: "pipeline", Rounds: env.N(3000, 6), Submitters: 4, PerRound: 8, BudgetMs: 6000 * f, Note: replayNote},
+		{Engine: "pipeline", Rounds: env.N(800, 6), Submitters: 4, PerRound: 8, ViaAPI: true, BudgetMs: 5000 * f, Note: replayNote},
+		{Engine: "direct", Rounds: env.N(400000, 6), Racers: 2, BudgetMs: 3000 * f, Note: replayNote},
+		{Engine: "direct", Rounds: env.N(300000, 6), Racers: 3, BudgetMs: 3000 * f, Note: replayNote},
 	}
 }
 
